@@ -216,4 +216,134 @@ example : findallL false (parseNode exDoc) [s "b", s "a", s "..", s "c"] =
 example : findfirstL (parseNode exDoc) [s "**", s "a"] = .ok (some ([s "b", s "a"], .text (some (s "1")))) := by
   decide +kernel
 
+/-! ### the string forms
+
+The theorems above speak about step lists (an official calling convention of `get`/`findall`).
+Here they are lifted to the strings the test-suite uses: result paths joined with `/`, positional
+paths `t1[k1]/…/tn[kn]`, and expressions of the property's grammar (`renderExpr`). -/
+
+/-- **C18 (get, string form).**  `get('t1[k1]/…/tn[kn]')` — the string — returns the stored value
+of the ElementTree element at that position, the default when there is none (tags addressable and
+not empty: `goodTagS`). -/
+theorem C18_get_positional_str (e : Elem) (st : Str × Nat) (p : List (Str × Nat))
+    (hp : ∀ q ∈ st :: p, goodTagS q.1 = true) :
+    getS (parseNode e) (renderIdxPath (st :: p)) = .ok ((elemAt e (st :: p)).map valueOf) := by
+  rw [getS_renderIdxPath _ _ hp]
+  exact C18_get_positional e st p (fun q hq => goodTagS_goodTag _ (hp q hq))
+
+example : renderIdxPath [(s "b", 0), (s "a", 0)] = s "b[0]/a[0]" := by decide +kernel
+example : getS (parseNode exDoc) (s "b[0]/a[0]") = .ok (some (.text (some (s "1")))) := by decide +kernel
+example : getS (parseNode exDoc) (s "a[2]") = .ok none := by decide +kernel
+
+/-- **C18 (findall resolves, string form).**  Every `(path, value)` pair `findall(xp)` returns —
+any expression string, both `find_first` modes — satisfies `get('/'.join(path)) == value`
+(document tags addressable and not empty: `goodVS`). -/
+theorem C18_findall_resolves_get_str (findFirst : Bool) (root : XVal) (hg : goodVS root = true)
+    (xp : Str) (hs : List Hit) (h : findall findFirst root xp = .ok (some hs)) :
+    ∀ p ∈ hs, getS root (join ['/'] p.1) = .ok (some p.2) := fun p hp =>
+  getS_of_getL root p.1 p.2 hg
+    (findallL_resolves findFirst root (goodVS_goodV root hg) (xpSteps xp) hs h p hp)
+
+/-- the same for the list form of the expression -/
+theorem C18_findallL_resolves_get_str (findFirst : Bool) (root : XVal) (hg : goodVS root = true)
+    (sought : List Str) (hs : List Hit) (h : findallL findFirst root sought = .ok (some hs)) :
+    ∀ p ∈ hs, getS root (join ['/'] p.1) = .ok (some p.2) := fun p hp =>
+  getS_of_getL root p.1 p.2 hg (findallL_resolves findFirst root (goodVS_goodV root hg) sought hs h p hp)
+
+/-- **C18 (`**`, string form).**  Every leaf `findall('**')` lists resolves through the string
+form of `get` to its text. -/
+theorem C18_deep_wildcard_resolves_str (root : XVal) (hg : goodVS root = true) :
+    ∀ p ∈ leavesV [] root, getS root (join ['/'] p.1) = .ok (some p.2) :=
+  C18_findallL_resolves_get_str false root hg [star2] _ (findallL_deep root)
+
+example : goodVS (parseNode exDoc) = true := by decide +kernel
+example : join ['/'] [s "b", s "a"] = s "b/a" := by decide +kernel
+example : getS (parseNode exDoc) (s "b/a") = .ok (some (.text (some (s "1")))) := by decide +kernel
+example : getS (parseNode exDoc) (s "a[1]") = .ok (some (.text (some (s "z")))) := by decide +kernel
+
+/-- **C18 (expressions as strings).**  For an expression of the property's grammar — tokens `..`
+or `tag[idx][text() op v]` with `tag` a name, `*` or `**`, `idx` absent, `[*]` or `[i]`, `op` `=` or
+`!=` (`WfTok`) — whose text contains no `**/**` (which `findall` collapses): what `findall` reads
+from the rendered string (`**/**` loop, `replace("/[","[").strip('/').split('/')`, the `'..'`
+test and the step parser standing for the regex) is exactly the expression. -/
+theorem C18_parse_render (e : List Tok) (hne : e ≠ []) (hwf : ∀ t ∈ e, WfTok t)
+    (hN : isInfix starsPat (renderExpr e) = false) :
+    parseExpr (renderExpr e) = some e ∧ xpSteps (renderExpr e) = e.map renderTok :=
+  ⟨parseExpr_renderExpr e hne hwf hN, xpSteps_render e hne hwf hN⟩
+
+/-- so `findall` on the rendered string is `findall` on the list of rendered steps -/
+theorem C18_findall_rendered (findFirst : Bool) (root : XVal) (e : List Tok) (hne : e ≠ [])
+    (hwf : ∀ t ∈ e, WfTok t) (hN : isInfix starsPat (renderExpr e) = false) :
+    findall findFirst root (renderExpr e) = findallL findFirst root (e.map renderTok) := by
+  unfold findall
+  rw [xpSteps_render e hne hwf hN]
+
+/-- one step: the step parser returns the groups the step was rendered from -/
+theorem C18_parseStep_render (st : Step) (h : WfStep st) : parseStep (renderStepE st) = some st :=
+  parseStep_render st h
+
+/-- `**/a[1][text()!=z]/../*[*]` -/
+def exExpr : List Tok :=
+  [some ⟨star2, none, none⟩, some ⟨s "a", some (some 1), some (opNe, s "z")⟩, none,
+   some ⟨star, some none, none⟩, some ⟨s "b_2", none, some (opEq, s "none")⟩]
+
+example : renderExpr exExpr = s "**/a[1][text()!=z]/../*[*]/b_2[text()=none]" := by decide +kernel
+example : isInfix starsPat (renderExpr exExpr) = false := by decide +kernel
+example : ∀ t ∈ exExpr, WfTok t := by
+  intro t ht
+  simp only [exExpr, List.mem_cons, List.not_mem_nil, or_false] at ht
+  rcases ht with rfl | rfl | rfl | rfl | rfl
+  · exact ⟨Or.inr (Or.inl rfl), trivial⟩
+  · refine ⟨Or.inr (Or.inr ⟨by decide +kernel, by decide +kernel⟩), Or.inr rfl, by decide +kernel, by decide +kernel, ?_⟩
+    intro h; revert h; decide
+  · trivial
+  · exact ⟨Or.inl rfl, trivial⟩
+  · refine ⟨Or.inr (Or.inr ⟨by decide +kernel, by decide +kernel⟩), Or.inl rfl, by decide +kernel, by decide +kernel, ?_⟩
+    intro _; decide +kernel
+example : parseExpr (s "**/a[1][text()!=z]/../*[*]/b_2[text()=none]") = some exExpr := by decide +kernel
+
+/-- **C18 (findfirst / in, string form).**  For every expression string. -/
+theorem C18_findfirst_str (root : XVal) (xp : Str) (r : Option (List Hit))
+    (h : findall false root xp = .ok r) :
+    findfirst root xp = .ok (firstOf r) ∧ contains root xp = .ok (nonEmpty r) :=
+  ⟨C18_findfirst root (xpSteps xp) r h, C18_in_iff root (xpSteps xp) r h⟩
+
+example : findall false (parseNode cexDoc) (s "**[1]/..") =
+      .ok (some [([s "a[0]"], .nodes [(s "b", [], .text none), (s "b", [], .text none)]), ([], parseNode cexDoc)]) ∧
+    findfirst (parseNode cexDoc) (s "**[1]/..") =
+      .ok (some ([s "a[0]"], .nodes [(s "b", [], .text none), (s "b", [], .text none)])) := by decide +kernel
+
+/-! ### attributes -/
+
+/-- `<r><p k="1"><q/></p><p n="2" k="3">t</p></r>`: attributes on an element with children and on a leaf -/
+def exDocA : Elem :=
+  .mk (s "r") none [(s "root", s "0")] [
+    .mk (s "p") none [(s "k", s "1")] [.mk (s "q") none [] []],
+    .mk (s "p") (some (s "t")) [(s "n", s "2"), (s "k", s "3")] []]
+
+/-- **C18 (attributes).**  `get_attrib` with explicit per-tag indexes (list form) returns exactly
+the attributes — names, values, order — ElementTree reports for the element at that position,
+whether or not it has children; the default (`none`) when there is no such element.
+(`C18_parse_preserves` already states that the parsed structure carries every element's
+attributes in document order; the root's own attributes are not kept by n0xml.) -/
+theorem C18_get_attrib_positional (e : Elem) (st : Str × Nat) (p : List (Str × Nat))
+    (hp : ∀ q ∈ st :: p, goodTag q.1 = true) :
+    getAttrL (parseNode e) ((st :: p).map renderStep) = .ok ((elemAt e (st :: p)).map attribOf) :=
+  getAttrL_parseNode e st p hp
+
+/-- the same for the string `t1[k1]/…/tn[kn]` -/
+theorem C18_get_attrib_positional_str (e : Elem) (st : Str × Nat) (p : List (Str × Nat))
+    (hp : ∀ q ∈ st :: p, goodTagS q.1 = true) :
+    getAttrS (parseNode e) (renderIdxPath (st :: p)) = .ok ((elemAt e (st :: p)).map attribOf) := by
+  rw [getAttrS_renderIdxPath _ _ (by simp) hp]
+  exact getAttrL_parseNode e st p (fun q hq => goodTagS_goodTag _ (hp q hq))
+
+example : getAttrS (parseNode exDocA) (s "p[0]") = .ok (some [(s "k", s "1")]) := by decide +kernel
+example : getAttrS (parseNode exDocA) (s "p[1]") = .ok (some [(s "n", s "2"), (s "k", s "3")]) := by decide +kernel
+example : getAttrS (parseNode exDocA) (s "p[0]/q[0]") = .ok (some []) := by decide +kernel
+example : getAttrS (parseNode exDocA) (s "p[2]") = .ok none := by decide +kernel
+example : flatVal 0 (parseNode exDocA) =
+    [⟨0, s "p", [(s "k", s "1")], none⟩, ⟨1, s "q", [], some none⟩,
+     ⟨0, s "p", [(s "n", s "2"), (s "k", s "3")], some (some (s "t"))⟩] := by decide +kernel
+
 end N0.C18
